@@ -579,8 +579,6 @@ func (a *a6) progress() {
 	c.Floor("A6-progress", n, 30)
 }
 
-
-
 // searchLenPre: find the smallest constant k of the function such that assuming len(P) >= k for a
 // slice parameter P occurring in the goal makes the obligation provable.
 func (a *a6) searchLenPre(pv *prover, fn *ssa.Function, o a6obl, g0 []lin) (*ssa.Parameter, int64, bool) {
